@@ -28,9 +28,11 @@ RandSample(i, n, off, p) ==
     IN [rle |-> << <<V(off + Pick(i, 5, -1000, 1000), p), c1>>, <<V(off + Pick(i, 6, -1000, 1000), p), c2>>,
                    <<V(off + Pick(i, 7, -50, 50), p), c3>>, <<V(off - 977, p), c4>>, <<V(off + 1013, p), c5>> >>,
         order |-> "asc"]
+\* strictly positive, never (nearly) constant: at least two of the three disjoint value ranges occur, so that the
+\* log-space variance is well conditioned whatever the seed (a constant sample has no defined conditioning)
 PosSample(i, n, p) ==
-    LET q == n \div 3  c1 == Pick(i, 41, 0, q)  c2 == Pick(i, 42, 0, q)  c3 == n - c1 - c2
-    IN [rle |-> << <<V(Pick(i, 43, 1, 4000), p), c1>>, <<V(Pick(i, 44, 1, 4000), p), c2>>, <<V(Pick(i, 45, 900, 1100), p), c3>> >>,
+    LET q == n \div 3  c1 == 1 + Pick(i, 41, 0, q)  c2 == Pick(i, 42, 0, q)  c3 == n - c1 - c2
+    IN [rle |-> << <<V(Pick(i, 43, 1, 400), p), c1>>, <<V(Pick(i, 44, 2300, 4000), p), c2>>, <<V(Pick(i, 45, 900, 1100), p), c3>> >>,
         order |-> "interleave"]
 
 MeanCase(fl, ty, style, ki, li, data, first) ==
@@ -175,6 +177,21 @@ MixNeg(d) ==
      /\ Emit(Tf(MeanCase("paired", ty, "ci", ki, 12, pa, TRUE) @@ [datab |-> pb], "base", <<>>))
      /\ Emit(Tf(MeanCase("paired", ty, "ci", FlipK[ki], 12, ng(pa), FALSE) @@ [datab |-> ng(pb)], "neg", <<>>))
 
+\* shifting a sample by minus its mean (a mean of exactly 0, two equal means) is an ordinary shift
+ZeroMean(d) ==
+  \A ty \in {"f64", "f32"} : \A ki \in 1..3 : \A li \in {8, 12} :
+     LET da == [rle |-> << <<V(2, 0), 1>>, <<V(4, 0), 1>>, <<V(6, 0), 2>>, <<V(12, 0), 1>> >>, order |-> "asc"]      \* mean 6
+         db == [rle |-> << <<V(1, 0), 2>>, <<V(7, 0), 2>>, <<V(14, 0), 1>> >>, order |-> "asc"]                     \* mean 6
+         pa == [rle |-> [j \in 1..5 |-> <<V((10 * j) + ((j * j) % 5), 0), 1>>], order |-> "asc"]
+         pb == [rle |-> [j \in 1..5 |-> <<V(10 * j, 0), 1>>], order |-> "asc"]                                       \* differences 1,4,4,1,0: mean 2
+     IN
+     /\ Emit(Tf(MeanCase("arith", ty, "ci", ki, li, da, TRUE), "base", <<>>))
+     /\ Emit(Tf(MeanCase("arith", ty, "ci", ki, li, da @@ [shift |-> V(-6, 0)], FALSE), "shift", [by |-> V(-6, 0)]))
+     /\ Emit(Tf(MeanCase("unpaired", ty, "ci", ki, li, da, TRUE) @@ [datab |-> db @@ [shift |-> V(3, 0)]], "base", <<>>))
+     /\ Emit(Tf(MeanCase("unpaired", ty, "ci", ki, li, da, FALSE) @@ [datab |-> db], "shift", [by |-> V(3, 0)]))
+     /\ Emit(Tf(MeanCase("paired", ty, "ci", ki, li, pa, TRUE) @@ [datab |-> pb], "base", <<>>))
+     /\ Emit(Tf(MeanCase("paired", ty, "ci", ki, li, pa @@ [shift |-> V(-2, 0)], FALSE) @@ [datab |-> pb], "shift", [by |-> V(-2, 0)]))
+
 PermsOf(n) == Permutations(1..n)
 C16Part(d) ==
   /\ \A i \in 1..ND : \A ty \in {"f64", "f32"} : \A li \in LevSel : \A ki \in 1..3 :
@@ -209,7 +226,7 @@ C16Part(d) ==
 
 Next == /\ ~done
         /\ done' = TRUE
-        /\ CASE Part = "c10" -> C10Part(done) [] Part = "c16" -> (C16Part(done) /\ MixNeg(done)) [] Part = "c10seq" -> C10SeqPart(done)
+        /\ CASE Part = "c10" -> C10Part(done) [] Part = "c16" -> (C16Part(done) /\ MixNeg(done) /\ ZeroMean(done)) [] Part = "c10seq" -> C10SeqPart(done)
              [] Part = "c10extra" -> C10ExtraPart(done)
 Spec == Init /\ [][Next]_done
 =============================================================================
